@@ -2,6 +2,7 @@ import NxProofs.ApiInventory
 import NxProofs.ApiSettings
 import NxProofs.ApiSetters
 import NxProofs.ApiWire
+import NxProofs.ApiSetSeq
 /-!
 # C20 — the documented public API exists and every documented knob takes effect
 
@@ -134,6 +135,23 @@ theorem nnas_login_argument_carried (s : Nnas) (st : NnasSet) (u p : String) (t 
 theorem nnas_setter_argument_persists (s : Nnas) (st st' : NnasSet) (h : st.kind ≠ st'.kind) (auth cert : Option String) :
     ∀ f ∈ st.fields, f ∈ ((s.apply st).apply st').prepare auth cert :=
   nnas_setter_persists s st st' h auth cert
+
+/-- setter sequences on one object: a later call of the same setter replaces everything the earlier call configured — an
+    optional argument given earlier and omitted later is the default again (`cert := none`), nothing stale survives.
+    (harness/c20_optseq.py asks the real client this for every spelling of the two calls.) -/
+theorem nnas_setter_last_call_wins (s : Nnas) (st st' : NnasSet) (h : st.kind = st'.kind) :
+    (s.apply st).apply st' = s.apply st' :=
+  nnas_last_call_wins s st st' h
+
+example : ((({} : Nnas).apply (.device 1 "SER1" 0x260 (some "certA"))).apply (.device 2 "SER2" 0x270 none)).deviceCert = none := rfl
+
+/-- the same for nasc (`set_title` may refuse: the statement is about the accepted first call) -/
+theorem nasc_setter_last_call_wins (s s₁ : Nasc) (st st' : NascSet) (h : st.kind = st'.kind) (h₁ : s.apply st = .ok s₁) :
+    s₁.apply st' = s.apply st' :=
+  nasc_last_call_wins s s₁ st st' h h₁
+
+example : ∃ s₁, ({ bssId := "aabbcc" } : Nasc).apply (.title 0x0004000000030800 1 "AAAA" "07" 2 (some "romA")) = .ok s₁ ∧
+    (s₁.apply (.title 0x0004000000030900 2 "----" "00" 0 none)).toOption.map (·.romId) = some none := ⟨_, rfl, rfl⟩
 
 /-- the optional headers are absent from a client on which the setter was never called; hence `set_title` / `set_device`
     with *any* arguments is observable against the never-configured client -/
